@@ -86,6 +86,11 @@ class Run:
         m.A_fn, self.id_ser, self.id_in_enc = settings_fns(mod, S)
         m.hint = lambda mod_, owner, name: typing.get_type_hints(getattr(getattr(mod_, owner), name), include_extras=True)["return"]
         harness.reset_all()
+        for d in m.expected_types().values():
+            names = [e["name"] for e in d.get("fields", [])]
+            if len(set(names)) != len(names):
+                env.count("illformed:field-name-collision")
+                return
         env.count("programs")
         for k, v in S.items():
             env.count(f"setting:{k}={v}")
@@ -103,13 +108,20 @@ class Run:
         env.count("validate_schema_checks")
         errs = graphql.validate_schema(schema)
         if errs:
-            self.viol({"kind": "validate-schema-errors"}, errors=[str(e) for e in errs][:5])
+            import re
+
+            m0 = str(errs[0].message)
+            cause = ("transitive-interface-not-implemented" if re.search(r"must implement \w+ because it is implemented by", m0)
+                     else "interface-field-missing" if re.search(r"Interface field .* expected but .* does not provide it", m0) else "other")
+            flat_iface = any(f["flatten"] and self.m.classes[f["t"][1]]["interface"] and self.m.classes[f["t"][1]]["bases"]
+                             for c in self.P["classes"] if c["role"] == "out" for f in c["fields"])
+            self.viol({"kind": "validate-schema-errors", "cause": cause, "flattened_interface_with_parent": flat_iface}, errors=[str(e) for e in errs][:5])
             return
         env.count("print_schema_checks")
         try:
             graphql.print_schema(schema)
         except Exception as e:
-            cause = "enum-default" if ("enum" in dk and "Enum" in str(e) and "cannot represent value" in str(e)) else "other"
+            cause = "enum-default" if ((dk & {"enum", "any-object"}) and "Enum" in str(e) and "cannot represent value" in str(e)) else "other"
             self.viol({"kind": "print-schema-raises", "exc": type(e).__name__, "cause": cause}, message=str(e)[:300])
         self.walk(graphql)
         nsets = 2
@@ -124,10 +136,10 @@ class Run:
         """mechanism-level cause of a graphql_schema failure: exception class + which generated construct the message is about"""
         msg = o.msg or ""
         callables = list(self.m.all_callables())
-        if o.exc == "TypeError" and msg.startswith("unhashable type") and (dk & {"unhashable", "unhashable-object", "object"}):
+        if o.exc == "TypeError" and "unhashable type" in msg and (dk & {"unhashable", "unhashable-object", "any-object"}):
             return "unhashable-default"
         if any(c["error_handler"] == "reraise" for c in callables) and (
-                (o.exc == "Unsupported" and "NoReturn" in msg) or (o.exc == "TypeError" and msg == "Cannot take a Union of no types.")):
+                (o.exc == "Unsupported" and "NoReturn" in msg) or (o.exc == "TypeError" and (msg.endswith("Cannot take a Union of no types.") or msg.endswith("typing.NoReturn")))):
             return "noreturn-error-handler"   # Unsupported(NoReturn), possibly re-raised from inside an Optional return type
         if o.exc == "TypeError" and "not supported in union serialization" in msg:
             return "union-serialization:" + ("literal" if "Literal[" in msg else "named-union" if "Union[" in msg else "other")
@@ -264,12 +276,25 @@ class Run:
                 env.count("mapping_id_positions")
             if str(a.type) != tstr:
                 self.viol({"kind": "type-mismatch", "view": "argument", "diff": type_diff(tstr, str(a.type)), "construct": construct_of(m, p["t"]),
-                           "default": p["default"]["kind"] if p["default"] else "required"}, type=tname, field=fname, arg=name, expected=tstr, observed=str(a.type))
+                           "default": p["default"]["kind"] if p["default"] else "required", "optional_literal_inside": self.has_optlit(p["t"])}, type=tname, field=fname, arg=name, expected=tstr, observed=str(a.type))
             if (a.default_value is not graphql.Undefined) != has_default:
-                self.viol({"kind": "default-presence-mismatch", "view": "argument", "default": p["default"]["kind"] if p["default"] else "required"},
+                self.viol({"kind": "default-presence-mismatch", "view": "argument", "default": p["default"]["kind"] if p["default"] else "required",
+                           "construct": construct_of(m, p["t"]), "optional_literal_inside": self.has_optlit(p["t"])},
                           type=tname, field=fname, arg=name, expected=has_default, observed=repr(a.default_value)[:100])
         if len(obs_names) != len(exp) and all(e[0] in f.args for e in exp):
             self.viol({"kind": "extra-field", "view": "argument"}, type=tname, field=fname, observed=obs_names)
+
+    def has_optlit(self, t, seen=None):
+        """does the (input) type contain an Optional / Undefined-union around a named Literal (directly or inside its objects)"""
+        seen = seen if seen is not None else set()
+        if t[0] in ("opt", "undef"):
+            return t[1][0] == "lit" or self.has_optlit(t[1], seen)
+        if t[0] == "list":
+            return self.has_optlit(t[1], seen)
+        if t[0] == "obj" and t[1] not in seen:
+            seen.add(t[1])
+            return any(self.has_optlit(f["t"], seen) for _, f in self.m.dc_fields(t[1]))
+        return False
 
     def walk_input(self, tname, ents, fields):
         import graphql
@@ -289,9 +314,10 @@ class Run:
                 env.count("mapping_id_positions")
             if str(f.type) != tstr:
                 self.viol({"kind": "type-mismatch", "view": "input-field", "diff": type_diff(tstr, str(f.type)), "construct": construct_of(m, e["spec"]["t"]),
-                           "default": d["kind"] if d else "required"}, type=tname, field=e["name"], expected=tstr, observed=str(f.type))
+                           "default": d["kind"] if d else "required", "optional_literal_inside": self.has_optlit(e["spec"]["t"])}, type=tname, field=e["name"], expected=tstr, observed=str(f.type))
             if (f.default_value is not graphql.Undefined) != has_default:
-                self.viol({"kind": "default-presence-mismatch", "view": "input-field", "default": d["kind"] if d else "required"},
+                self.viol({"kind": "default-presence-mismatch", "view": "input-field", "default": d["kind"] if d else "required",
+                           "construct": construct_of(m, e["spec"]["t"]), "optional_literal_inside": self.has_optlit(e["spec"]["t"])},
                           type=tname, field=e["name"], expected=has_default, observed=repr(f.default_value)[:100])
         for n in obs_names:
             if n not in exp_names:
@@ -433,12 +459,68 @@ class Run:
         if re.match(r"'\w+' object has no attribute '\w+'", msg) and has_flatten:
             cause = "flattened-resolver-context"
         elif msg.startswith("[{'loc'"):
-            cause = "argument-rejected"
+            att = self.omitted_attribution(calls, msg)
+            return {"kind": "exec-errors", "on": "valid-query", "cause": "argument-rejected", "omitted_default": att,
+                    "aliaser": self.P["settings"]["aliaser"] if att == "parameter:object" else "n/a"}
         elif msg.startswith("Variable '$"):
             cause = "variable-rejected"
         else:
             cause = "other"
         return {"kind": "exec-errors", "on": "valid-query", "cause": cause}
+
+    PRIORITY = ["unserializable", "object", "enum", "unhashable", "undef", "none", "value"]
+
+    def omitted_attribution(self, calls, msg=""):
+        """which omitted default could explain a rejection of valid arguments: the parameter named by the first error location when
+        it was omitted (its default kind), else the most specific kind among omitted defaulted input fields of that parameter's data;
+        without a usable location: most specific kind over everything omitted ("none" when nothing was omitted)"""
+        import re
+
+        mloc = re.match(r"\[\{'loc': \['(\w+)'", msg or "")
+        pk, fk = set(), set()
+        for key, vals in calls.items():
+            for p in self.spec_of(key)["params"]:
+                hit = mloc is not None and self.m.A(p["alias"] or p["name"]) == mloc.group(1)
+                if p["name"] not in vals:
+                    if p["default"] is not None:
+                        if hit:
+                            return "parameter:" + p["default"]["kind"]
+                        pk.add(p["default"]["kind"])
+                else:
+                    ks = self.omitted_field_kinds(p["t"], vals[p["name"]][0])
+                    if hit:
+                        for k in self.PRIORITY:
+                            if k in ks:
+                                return "input-field:" + k
+                        return "none"
+                    fk |= ks
+        for where, ks in (("parameter", pk), ("input-field", fk)):
+            for k in self.PRIORITY:
+                if k in ks and k in ("unserializable", "object", "enum", "unhashable"):
+                    return f"{where}:{k}"
+        for where, ks in (("parameter", pk), ("input-field", fk)):
+            for k in self.PRIORITY:
+                if k in ks:
+                    return f"{where}:{k}"
+        return "none"
+
+    def omitted_field_kinds(self, t, g):
+        out = set()
+        while t[0] in ("opt", "undef"):
+            t = t[1]
+        if g is None:
+            return out
+        if t[0] == "list" and isinstance(g, list):
+            for x in g:
+                out |= self.omitted_field_kinds(t[1], x)
+        elif t[0] == "obj" and isinstance(g, dict):
+            for e in self.m.in_fields(t[1]):
+                if e["name"] not in g:
+                    if e["spec"]["default"] is not None:
+                        out.add(e["spec"]["default"]["kind"])
+                else:
+                    out |= self.omitted_field_kinds(e["spec"]["t"], g[e["name"]])
+        return out
 
     def nested_default_kinds(self, t, seen=None):
         seen = seen or set()
@@ -514,7 +596,9 @@ class Run:
             n = p["name"]
             if exp.get(n) != got.get(n):
                 if n not in vals:
-                    self.viol({"kind": "default-not-passed", "view": "parameter", "construct": p["default"]["kind"], "on": view},
+                    leaf = first_leaf_diff(exp.get(n), got.get(n))
+                    cons = p["default"]["kind"] + ("/enum" if p["default"].get("is_object") and leaf and leaf[0] == "enum" else "")
+                    self.viol({"kind": "default-not-passed", "view": "parameter", "construct": cons, "on": view},
                               **{**wit, "target": key}, param=n, expected=repr(exp.get(n)), observed=repr(got.get(n)))
                 else:
                     inner = self.default_diff_kind(p["t"], exp.get(n), got.get(n))
@@ -624,7 +708,7 @@ class Run:
 
         env, m, mod = self.env, self.m, self.loaded.module
         n_valid = 2 if env.quick() else 3
-        n_bad = 3 if env.quick() else 5
+        n_bad = 2 if env.quick() else 4
         for target in self.targets():
             kind, spec, carrier, ent = target
             key = spec["name"] if kind == "op" else f"{ent['owner']}.{spec['name']}"
@@ -663,6 +747,9 @@ class Run:
                     else:
                         env.count("arg_invalid:" + done)
                     bad = "gql" if want == "gql" else "api"
+                    if kind == "res" and not mine and not res.errors and self.carrier_empty(res.data):
+                        env.count("abstain:carrier-returned-nothing")
+                        continue
                     if mine:
                         self.viol({"kind": "invalid-arg-accepted", "how": "resolver-invoked", "bad": bad, "construct": done or "deserialize-rejects", "view": view,
                                    "error_handler": spec["error_handler"]}, **wit, deserialize_errors=why, errors=[str(e)[:200] for e in (res.errors or [])][:3], log=repr(mine)[:300])
@@ -685,9 +772,10 @@ class Run:
                     if kind == "res" and not res.errors and self.carrier_empty(res.data):
                         env.count("abstain:carrier-returned-nothing")
                         continue
-                    self.viol({"kind": "valid-arg-rejected", "view": view, "omitted_default_kinds": omitted,
-                               "aliaser": self.P["settings"]["aliaser"] if "object" in omitted else "n/a"},
-                              **wit, errors=[str(e)[:300] for e in (res.errors or [])][:3], data=res.data)
+                    feats = self.classify_exec_error(res.errors, calls, None) if res.errors else {"cause": "no-error-no-call", "omitted_default": self.omitted_attribution(calls), "aliaser": "n/a"}
+                    feats = {**feats, "kind": "valid-arg-rejected", "view": view}
+                    feats.pop("on", None)
+                    self.viol(feats, **wit, errors=[str(e)[:300] for e in (res.errors or [])][:3], data=res.data)
                     continue
                 ok = True
                 for kw in mine[:3]:
@@ -775,6 +863,23 @@ class Run:
                     self.viol({"kind": "error-handler-mismatch", "handler": spec["error_handler"], "observed": "non-null"}, **wit)
 
 
+def first_leaf_diff(e, g):
+    """first leaf of the expected canonical image that differs from the observed one"""
+    if e == g:
+        return None
+    if isinstance(e, tuple) and isinstance(g, tuple) and len(e) == 3 and len(g) == 3 and e[0] == g[0] == "obj" and e[1] == g[1] and len(e[2]) == len(g[2]):
+        for (_, ev), (_, gv) in zip(e[2], g[2]):
+            r = first_leaf_diff(ev, gv)
+            if r:
+                return r
+    if isinstance(e, tuple) and isinstance(g, tuple) and len(e) == 2 and len(g) == 2 and e[0] == g[0] == "list" and len(e[1]) == len(g[1]):
+        for ev, gv in zip(e[1], g[1]):
+            r = first_leaf_diff(ev, gv)
+            if r:
+                return r
+    return e
+
+
 def kind_of(graphql, t):
     return ("object" if isinstance(t, graphql.GraphQLObjectType) else "interface" if isinstance(t, graphql.GraphQLInterfaceType)
             else "input" if isinstance(t, graphql.GraphQLInputObjectType) else "enum" if isinstance(t, graphql.GraphQLEnumType)
@@ -806,9 +911,7 @@ def count_tags(env, tags):
     while stack:
         x = stack.pop()
         if isinstance(x, dict):
-            if len(x) > 1:
-                pass
-            stack.extend(x.values())
+            stack.extend(v for k, v in x.items() if not k.startswith("$edge:"))
         elif isinstance(x, list):
             stack.extend(x)
         elif isinstance(x, str):
